@@ -155,17 +155,17 @@ with rd_atom (f : nat) (ts : list token) {struct f} : res expr :=
     | TName s :: r => Some (EName s, r)
     | TLP :: TRP :: r => Some (ETuple [], r)
     | TLP :: r =>
-      match rd_star f' r with
+      match rd_star f' false r with
       | Some (x, TRP :: r2) => if is_starred x then None else Some (x, r2)      (* parenthesised form: transparent *)
       | Some (x, TComma :: r2) =>
-        match rd_elts f' CParen r2 with
+        match rd_elts f' false CParen r2 with
         | Some (xs, r3) => Some (ETuple (x :: xs), r3)
         | None => None
         end
       | _ => None
       end
     | TLB :: r =>
-      match rd_elts f' CBracket r with
+      match rd_elts f' false CBracket r with
       | Some (xs, r2) => Some (EList xs, r2)
       | None => None
       end
@@ -176,7 +176,7 @@ with rd_atom (f : nat) (ts : list token) {struct f} : res expr :=
       | None => None
       end
     | TLC :: r =>
-      match rd_star f' r with
+      match rd_star f' false r with
       | Some (k, TColon :: r2) =>
         if is_starred k then None else
         match rd f' L_test r2 with
@@ -190,7 +190,7 @@ with rd_atom (f : nat) (ts : list token) {struct f} : res expr :=
         end
       | Some (x, TRC :: r2) => Some (ESet [x], r2)
       | Some (x, TComma :: r2) =>
-        match rd_elts f' CBrace r2 with
+        match rd_elts f' false CBrace r2 with
         | Some (xs, r3) => Some (ESet (x :: xs), r3)
         | None => None
         end
@@ -213,10 +213,10 @@ with rd_trailers (f : nat) (a : expr) (ts : list token) {struct f} : res expr :=
       | None => None
       end
     | TLB :: r =>
-      match rd_star f' r with
+      match rd_star f' true r with
       | Some (x, TRB :: r2) => rd_trailers f' (ESub a (if is_starred x then ETuple [x] else x)) r2
       | Some (x, TComma :: r2) =>
-        match rd_elts f' CBracket r2 with
+        match rd_elts f' true CBracket r2 with
         | Some (xs, r3) => rd_trailers f' (ESub a (ETuple (x :: xs))) r3
         | None => None
         end
@@ -226,20 +226,21 @@ with rd_trailers (f : nat) (a : expr) (ts : list token) {struct f} : res expr :=
     end
   end
 
-(* star_named_expression: "*" bitwise_or | expression *)
-with rd_star (f : nat) (ts : list token) {struct f} : res expr :=
+(* star_named_expression: "*" bitwise_or | expression   (displays);
+   in a subscript (sl): slice | starred_expression, where starred_expression is "*" expression *)
+with rd_star (f : nat) (sl : bool) (ts : list token) {struct f} : res expr :=
   match f with
   | O => None
   | S f' =>
     match ts with
     | TOp OStar :: r =>
-      match rd f' L_bitor r with Some (x, r') => Some (EStarred x, r') | None => None end
+      match rd f' (if sl then L_test else L_bitor) r with Some (x, r') => Some (EStarred x, r') | None => None end
     | _ => rd f' L_test ts
     end
   end
 
 (* [star_named_expression ("," star_named_expression)* [","]] closer *)
-with rd_elts (f : nat) (c : closer) (ts : list token) {struct f} : res (list expr) :=
+with rd_elts (f : nat) (sl : bool) (c : closer) (ts : list token) {struct f} : res (list expr) :=
   match f with
   | O => None
   | S f' =>
@@ -247,11 +248,11 @@ with rd_elts (f : nat) (c : closer) (ts : list token) {struct f} : res (list exp
     | [] => None
     | t :: r =>
       if closes c t then Some ([], r) else
-      match rd_star f' ts with
+      match rd_star f' sl ts with
       | Some (x, t2 :: r2) =>
         if closes c t2 then Some ([x], r2) else
         match t2 with
-        | TComma => match rd_elts f' c r2 with Some (xs, r3) => Some (x :: xs, r3) | None => None end
+        | TComma => match rd_elts f' sl c r2 with Some (xs, r3) => Some (x :: xs, r3) | None => None end
         | _ => None
         end
       | _ => None
